@@ -1,1 +1,226 @@
-/- C01 — property theorems (to be written) -/
+/-
+  C01 — fibertrees stay well-formed under every history of public mutations.
+  Property theorems only; helpers in FtProofs/Lemmas/{MutLemmas,PopLemmas,PointLemmas}.lean.
+  (Uniform depth and single boxing are carried by the type `Tree Int ν d`; that the
+  implementation's stored objects have this shape is checked on every observed state by the
+  driver's `rawWF`, which is the executable side of this property.)
+-/
+import FtProofs.Lemmas.MutLemmas
+import FtProofs.C05
+import FtProofs.C12
+set_option linter.unusedSectionVars false
+set_option linter.unusedSimpArgs false
+namespace Ft
+open StrictTotal
+
+section
+variable {ν : Type} [DecidableEq ν]
+
+/-- the fiber arguments of an operation are themselves well-formed (they are `Fiber` objects
+    built by a public constructor) -/
+def TreeArg.WFArg (a : TreeArg ν) : Prop := ∀ d v, a.get d = some v → WF d v
+
+def MutOp.ArgsWF : MutOp ν → Prop
+  | .append _ _ v => v.WFArg
+  | .extend _ g => g.WFArg
+  | .setitem _ _ _ (some v) => v.WFArg
+  | .assignF _ g => g.WFArg
+  | .populate _ a _ _ => a.WFArg
+  | _ => True
+
+/-- nested populate loops keep the destination well-formed -/
+theorem popNest_wf (dflt : ν) (leafF : List Int → ν → ν → ν) (skip : List Int → Bool) :
+    ∀ (d : Nat) (pre : List Int) (z a : Tree Int ν (d + 1)), WF (d + 1) z → WF (d + 1) a →
+      WF (d + 1) (popNest dflt leafF skip d pre z a)
+  | 0, pre, z, a, hz, ha => by
+    simp only [popNest]
+    exact populate_wf dflt 0 _ z _ (fun _ _ _ _ _ => trivial) hz (present_sorted ha.sorted)
+  | d + 1, pre, z, a, hz, ha => by
+    simp only [popNest]
+    apply populate_wf dflt (d + 1) _ z _ _ hz (present_sorted ha.sorted)
+    intro c cur bp hmem hcur
+    by_cases hs : skip (pre ++ [c]) = true
+    · simp only [hs, if_true]; exact hcur
+    · simp only [hs, Bool.false_eq_true, if_false]
+      exact popNest_wf dflt leafF skip d (pre ++ [c]) cur bp hcur (ha.sub _ (mem_present.1 hmem).1)
+
+theorem denseRefF_wf (dflt : ν) (d : Nat) (cs : List Int) : ∀ (f : Tree Int ν (d + 1)), WF (d + 1) f →
+    WF (d + 1) (denseRefF dflt d f cs) := by
+  unfold denseRefF
+  induction cs with
+  | nil => intro f h; exact h
+  | cons c r ih => intro f h; exact ih _ (refAt_wf dflt (d + 1) f h [c])
+
+theorem writeLeaf_wf (f : Tree Int ν 1) (c : Int) (v : ν) (h : WF 1 f) : WF 1 (writeLeaf f c v) := by
+  refine ⟨sorted_map_payload _ _ (fun e => by by_cases he : e.1 = c <;> simp [he]) h.sorted, ?_⟩
+  intro e _; trivial
+
+/-- every fiber-level mutator keeps the fiber it is applied to well-formed -/
+theorem fiberStep_wf (dflt : ν) (op : MutOp ν) (hop : op.ArgsWF) (d : Nat) (f : Tree Int ν (d + 1))
+    (h : WF (d + 1) f) : WF (d + 1) (fiberStep dflt op d f).1 := by
+  cases op with
+  | ref p => exact h
+  | posref a c =>
+    refine ⟨posrefF_sorted _ _ c h.sorted, ?_⟩
+    intro e he
+    rcases posrefF_mem _ _ c e he with h1 | h1
+    · exact h.sub e h1
+    · rw [h1]; exact wf_defaultTree dflt d
+  | append a c v =>
+    simp only [fiberStep]
+    cases hv : v.get d with
+    | none => exact h
+    | some x =>
+      refine ⟨appendF_sorted _ c x h.sorted, ?_⟩
+      intro e he
+      rcases appendF_mem _ c x e he with h1 | h1
+      · exact h.sub e h1
+      · rw [h1]; exact hop d x hv
+  | extend a g =>
+    simp only [fiberStep]
+    cases hv : g.get (d + 1) with
+    | none => exact h
+    | some x =>
+      have hx : WF (d + 1) x := hop (d + 1) x hv
+      refine ⟨extendF_sorted _ _ _ h.sorted hx.sorted, ?_⟩
+      intro e he
+      rcases extendF_mem _ _ _ e he with h1 | h1
+      · exact h.sub e h1
+      · exact hx.sub e h1
+  | setitem a pos c v =>
+    cases v with
+    | none =>
+      simp only [fiberStep]
+      refine ⟨setitemF_sorted _ pos c none h.sorted, ?_⟩
+      intro e he
+      rcases setitemF_mem _ pos c none e he with h1 | ⟨old, ho, h1⟩
+      · exact h.sub e h1
+      · rw [h1]; exact h.sub old ho
+    | some arg =>
+      simp only [fiberStep]
+      cases hv : arg.get d with
+      | none => exact h
+      | some x =>
+        refine ⟨setitemF_sorted _ pos c (some x) h.sorted, ?_⟩
+        intro e he
+        rcases setitemF_mem _ pos c (some x) e he with h1 | ⟨old, _, h1⟩
+        · exact h.sub e h1
+        · rw [h1]; exact hop d x hv
+  | clear a => exact ⟨List.Pairwise.nil, fun _ h => by cases h⟩
+  | updCoords a k m =>
+    simp only [fiberStep]
+    by_cases hk : k = 0
+    · simp only [hk, if_true]; exact h
+    · simp only [hk, if_false]
+      refine ⟨updCoordsF_sorted k m hk _ h.sorted, ?_⟩
+      intro e he
+      obtain ⟨x, hx, hxe⟩ := updCoordsF_mem k m _ e he
+      rw [hxe]; exact h.sub x hx
+  | updPayloads a g =>
+    cases d with
+    | zero =>
+      simp only [fiberStep]
+      exact ⟨sorted_map_key _ (fun e => (g (show ν from e.2) : ν)) h.sorted, fun _ _ => trivial⟩
+    | succ d' => exact h
+  | denseRef a cs w =>
+    have ht := denseRefF_wf dflt d cs f h
+    cases d with
+    | zero =>
+      simp only [fiberStep]
+      generalize denseRefF dflt 0 f cs = t at ht
+      induction w generalizing t with
+      | nil => exact ht
+      | cons cv r ih =>
+        simp only [List.foldl_cons]
+        apply ih trivial
+        split
+        · exact writeLeaf_wf t cv.1 cv.2 ht
+        · exact ht
+    | succ d' => exact ht
+  | assignF a g =>
+    simp only [fiberStep]
+    cases hv : g.get (d + 1) with
+    | none => exact h
+    | some x => exact nonEmpty_wf dflt (d + 1) x (hop (d + 1) x hv)
+  | populate a src leafF skip =>
+    simp only [fiberStep]
+    cases hv : src.get (d + 1) with
+    | none => exact h
+    | some x => exact popNest_wf dflt leafF skip d [] f x h (hop (d + 1) x hv)
+
+/-- **one step**: every public mutator, applied at any sub-fiber with any arguments, maps a
+    well-formed tree to a well-formed tree (whether it is accepted or rejected) -/
+theorem step_wf (dflt : ν) (d : Nat) (t : Tree Int ν (d + 1)) (op : MutOp ν) (hop : op.ArgsWF)
+    (h : WF (d + 1) t) : WF (d + 1) (mstep dflt d t op).1 := by
+  cases op with
+  | ref p => exact refAt_wf dflt (d + 1) t h p
+  | posref a c => exact atPath_wf _ (fiberStep_wf dflt (.posref a c) hop) d t a h
+  | append a c v => exact atPath_wf _ (fiberStep_wf dflt (.append a c v) hop) d t a h
+  | extend a g => exact atPath_wf _ (fiberStep_wf dflt (.extend a g) hop) d t a h
+  | setitem a pos c v => exact atPath_wf _ (fiberStep_wf dflt (.setitem a pos c v) hop) d t a h
+  | clear a => exact atPath_wf _ (fiberStep_wf dflt (.clear a) hop) d t a h
+  | updCoords a k m => exact atPath_wf _ (fiberStep_wf dflt (.updCoords a k m) hop) d t a h
+  | updPayloads a g => exact atPath_wf _ (fiberStep_wf dflt (.updPayloads a g) hop) d t a h
+  | denseRef a cs w => exact atPath_wf _ (fiberStep_wf dflt (.denseRef a cs w) hop) d t a h
+  | assignF a g => exact atPath_wf _ (fiberStep_wf dflt (.assignF a g) hop) d t a h
+  | populate a src lf sk => exact atPath_wf _ (fiberStep_wf dflt (.populate a src lf sk) hop) d t a h
+
+/-- **every history**: after any finite sequence of public mutators, starting from any
+    well-formed tree, the tree is well-formed (and so is every intermediate tree: apply this
+    to each prefix of the history) -/
+theorem run_wf (dflt : ν) (d : Nat) : ∀ (ops : List (MutOp ν)) (t : Tree Int ν (d + 1)),
+    (∀ op ∈ ops, op.ArgsWF) → WF (d + 1) t → WF (d + 1) (mrun dflt d t ops)
+  | [], _, _, h => h
+  | op :: ops, t, hops, h =>
+    run_wf dflt d ops _ (fun o ho => hops o (List.mem_cons_of_mem _ ho))
+      (step_wf dflt d t op (hops op (List.mem_cons_self ..)) h)
+
+/-- **a rejected order-violating operation leaves the tree exactly as it was** (append, extend,
+    position assignment: the checks precede the writes) -/
+theorem rejected_unchanged (dflt : ν) (d : Nat) (t : Tree Int ν (d + 1)) (op : MutOp ν)
+    (hkind : (∃ a c v, op = .append a c v) ∨ (∃ a g, op = .extend a g) ∨ (∃ a p c v, op = .setitem a p c v))
+    (h : WF (d + 1) t) (hr : (mstep dflt d t op).2 ≠ .ok) : (mstep dflt d t op).1 = t := by
+  rcases hkind with ⟨a, c, v, rfl⟩ | ⟨a, g, rfl⟩ | ⟨a, p, c, v, rfl⟩
+  · refine atPath_rejected _ ?_ d t a h hr
+    intro d' f hr'
+    simp only [fiberStep] at hr' ⊢
+    cases hv : v.get d' with
+    | none => rfl
+    | some x => simp only [hv] at hr'; exact appendF_rejected _ c x hr'
+  · refine atPath_rejected _ ?_ d t a h hr
+    intro d' f hr'
+    simp only [fiberStep] at hr' ⊢
+    cases hv : g.get (d' + 1) with
+    | none => rfl
+    | some x => simp only [hv] at hr'; exact extendF_rejected _ _ _ hr'
+  · refine atPath_rejected _ ?_ d t a h hr
+    intro d' f hr'
+    cases v with
+    | none => simp only [fiberStep] at hr' ⊢; exact setitemF_rejected _ p c none hr'
+    | some arg =>
+      simp only [fiberStep] at hr' ⊢
+      cases hv : arg.get d' with
+      | none => rfl
+      | some x => simp only [hv] at hr'; exact setitemF_rejected _ p c (some x) hr'
+
+end
+
+/-! ### non-vacuity: a tree with an explicit zero and an empty sub-fiber is well-formed, and a
+    history that hits insertion, an order-violating append, a position assignment, a coordinate
+    reversal and a clear runs through `mrun` (tests) -/
+section
+private def t0 : Tree Int Int 2 := [(0, [(1, (5 : Int)), (2, (0 : Int))]), (3, []), (4, [(0, (7 : Int))])]
+example : WF 2 t0 := (wfB_iff 2 t0).1 (by decide)
+private def leafArg (v : Int) : TreeArg Int := ⟨fun d => match d with | 0 => some (v : Int) | _ => none⟩
+private def hist : List (MutOp Int) :=
+  [.ref [2, 2], .append [0] 1 (leafArg 9), .append [0] 7 (leafArg 9), .setitem [4] 0 (some 3) none,
+   .updCoords [0] (-1) 0, .clear [3], .posref [] 9]
+example : ∀ op ∈ hist, op.ArgsWF := by
+  intro op hop
+  simp only [hist, List.mem_cons, List.mem_nil_iff, or_false] at hop
+  rcases hop with rfl | rfl | rfl | rfl | rfl | rfl | rfl <;> simp [MutOp.ArgsWF, TreeArg.WFArg, leafArg] <;>
+    (intro d v; cases d <;> simp [WF])
+#guard wfB 2 (mrun 0 1 t0 hist)
+#guard (mstep 0 1 t0 (.append [0] 1 (leafArg 9))).2 == .rejectedOrder
+end
+end Ft
